@@ -1349,6 +1349,33 @@ def g_roundtrip_gaps(tier, seed):
                     if tier == "thorough" or core or block_of(case, KERN_GAP_BLOCKS) == seed % KERN_GAP_BLOCKS:
                         yield case
                 idx += 1
+    # gaps of tuplet length: the voice enters k units of an n-in-the-time-of-m 16th tuplet after the barline (the writer
+    # must find the one tuplet value of the rest it inserts: 3/7, 2/5, 1/3 ... of a quarter lie close to dotted values)
+    for num, nb in ((3, 2), (5, 4), (6, 4), (7, 4)):
+        for k in range(1, num):
+            if (F(k * nb, num)).denominator == 1 or k not in (1, 2, 3, 4, 6):
+                continue  # a plain length: covered above; k units must be ONE (dotted) value of the tuplet
+            for mi in (0, 1):
+                for comp in (True, False):
+                    for v in (16, 8):
+                        span = F(4, v) * nb  # quarters covered by the tuplet group
+                        if span > 2:
+                            continue
+                        rest_units = int((4 - span) * 4)
+                        layers2 = []
+                        for m in range(2):
+                            if m == mi:
+                                grp = {"k": "tup", "num": num, "nb": nb,
+                                       "ev": [lf("s", v) for _ in range(k)] + [lf("n", v, 0, 2 + j) for j in range(num - k)]}
+                                evs = [grp] + _plain_notes(rest_units, 0, 2 + m)
+                            else:
+                                evs = [lf("n", 1, 0, 2 + m)]
+                            layers2.append(evs)
+                        staves = [{"n": 1, "clef": ["G", 2], "layers": []}]
+                        if comp:
+                            staves[0]["layers"].append({"n": 1, "m": [[lf("n", 1, 0, m)] for m in range(2)]})
+                        staves[0]["layers"].append({"n": 2 if comp else 1, "m": layers2})
+                        yield {"f": "rt", "w": "kern", "doc": {"meter": [4, 4], "key": [0, None], "nm": 2, "staves": staves, "mei": {}}}
 
 
 # ---------------------------------------------------------------------------------------------
@@ -1720,7 +1747,7 @@ def spaces(tier, seed):
            "block VERIF_SEED of %d)" % KERN_EST_PAIR_BLOCKS, "kern"),
         sp("roundtrip-kern-gaps", g_roundtrip_gaps, "save_kern -> load_kern of 2-measure parts in 4/4 and 3/4 with a voice that enters a 16ths "
            "after the barline and stops c 16ths before the next one, a and c over every length that is ONE note value (1,2,3,4,6,7,8,12,14,15 "
-           "16ths; 0 = none; gaps that need two tied values cannot be written by fill_rests as one rest and are outside), the sounding rest "
+           "16ths; 0 = none; plus entry gaps of k in {1,2,3,4,6} units of a 3:2, 5:4, 6:4 or 7:4 tuplet of 16ths or 8ths (one dotted tuplet value, e.g. 3/7 of a quarter) in 4/4; gaps that need two tied values cannot be written by fill_rests as one rest and are outside), the sounding rest "
            "filled with plain values (explicit); x gap in measure 1/2 x other measure complete/absent x {alone, beside a voice of whole-measure "
            "notes on the same / another staff} (12 placements); quick: every (a, c) of 4/4 with one placement (cycled) + hash block VERIF_SEED "
            "of %d of the rest; the MEI writer has no rest filling (gaps are not expressible there)" % KERN_GAP_BLOCKS),
